@@ -539,7 +539,7 @@ theorem transfer_frame (nAcc h0 : Nat) (vals : List (Nat × Nat)) (hv : vals.len
     (∀ x, x < (reachVS nAcc h0 vals ops w).period → v'.ratio x = (reachVS nAcc h0 vals ops w).ratio x) ∧
     v'.slashes = (reachVS nAcc h0 vals ops w).slashes ∧
     v'.tokens = (reachVS nAcc h0 vals ops w).tokens ∧ v'.shares = (reachVS nAcc h0 vals ops w).shares := by
-  obtain ⟨fsh, _, _, _, _, _, _, b1, b2, b3⟩ :=
+  obtain ⟨fsh, _, _, _, _, _, _, b1, b2, b3, _⟩ :=
     transfer_shape cfg_good (reach_SInv cfg_good nAcc h0 vals hv ops hw) hf htn hne ht
   obtain ⟨_, _, _, _, _, _, c1, c2, c3⟩ := transfer_moves_exactly hne ht
   exact ⟨fun d h1 h2 => ⟨c1 d h1 h2, b1 d h1 h2⟩, b2, b3, c2, c3⟩
